@@ -1,5 +1,6 @@
 import Hgxv.Model.Wire
 import Hgxv.Model.C15
+import Hgxv.Model.C15Init
 /-! Line protocol for C15.  State: `u` (N×K), `w` (K×K), hyperedges with weights.
   `setu <ratss>` / `setw <ratss>` / `data <natss> <rats>`          -> `ok`
   `qf` `bf` `qfsum` `bfsum` `esum` `pois`                          -> values of the linear operations / Poisson parameters
@@ -24,7 +25,16 @@ import Hgxv.Model.C15
   `opois` / `oesum`                                                -> Poisson parameters / hyperedge sums of the current `data` under the
                                                                       object's CURRENT arrays, `uninit` when one is `None`
   `osync`                                                          -> `ok` / `uninit`: the stateless commands above now read the object's arrays
-  `ostate`                                                         -> `D|u|w|trained|training_iter|tolerance_reached` -/
+  `ostate`                                                         -> `D|u|w|trained|training_iter|tolerance_reached`
+  extension round (`Model/C15Init.lean`): constructor, initial draws, guarded whole run, `log_likelihood`
+  `ctor <K|-1> <ratss u|none> <ratss w|none> <1|0|none>`           -> `ok|K|assortative` or `err|<which ValueError>`
+  `initw <K> <1|0> <prior> <ratss g>` / `initu <N> <K> <prior> <ratss g>`
+                                                                   -> the array `_init_w` / `_init_u` builds from the raw draws `g`, or `badprior`;
+                                                                      `<prior>` = `s<rat>` (a float) or `a<ratss>` (an array)
+  `fitseed <N> <K|-1> <u|none> <w|none> <1|0|none> <Dsup|-1> <uprior> <wprior> <ratss gw> <ratss gu> <sqrtC> <n> <tol|none> <every>`
+                                                                   -> `ctorerr|..` / `badprior` / `rej` / `nonfinite` / `ok|D|u|w|training_iter|tolerance_reached`:
+                                                                      constructor, initial draws and `fit` on the current `data` (`fitSeed`)
+  `llparts`                                                        -> `bf_and_sum(u, w)|Poisson parameters of the data`: the ingredients of `log_likelihood` -/
 open Wire C15
 
 structure St where
@@ -72,7 +82,54 @@ def showObj (o : Obj) : String :=
   (match o.D with | some D => toString D | none => "-1") ++ "|" ++ showOptRows o.u ++ "|" ++ showOptRows o.w ++ "|"
     ++ showBool o.trained ++ "|" ++ (match o.it with | some i => toString i | none => "none") ++ "|" ++ showBool o.reached
 
+def prior? (s : String) : Option Prior :=
+  if s.startsWith "s" then (rat? (s.drop 1).toString).map Prior.scalar
+  else if s.startsWith "a" then (ratss? (s.drop 1).toString).map Prior.array
+  else none
+
+def optBool? (s : String) : Option (Option Bool) :=
+  if s = "none" then some none else if s = "1" then some (some true) else if s = "0" then some (some false) else none
+
+def optNat? (s : String) : Option (Option Nat) := (int? s).map fun i => if i < 0 then none else some i.toNat
+
+def showErr : CtorErr → String
+  | .noAssortative => "noAssortative" | .noK => "noK" | .wNegative => "wNegative" | .wNotSymmetric => "wNotSymmetric"
+  | .wNotDiagonal => "wNotDiagonal" | .uNegative => "uNegative" | .kMismatch => "kMismatch"
+
+def showOutcome : Outcome → String
+  | .ctorErr e => "ctorerr|" ++ showErr e
+  | .badPrior => "badprior"
+  | .rej => "rej"
+  | .nonfinite => "nonfinite"
+  | .ok D p it reached => "ok|" ++ toString D ++ "|" ++ showRatss p.u ++ "|" ++ showRatss p.w ++ "|" ++ toString it ++ "|" ++ showBool reached
+
 def step (s : St) : List String → St × String
+  | ["ctor", k, u, w, ass] => match optNat? k, optMat? u, optMat? w, optBool? ass with
+    | some k, some u, some w, some ass =>
+      (s, match construct { K := k, u := u, w := w, assortative := ass } with
+        | .ok h => "ok|" ++ toString h.K ++ "|" ++ showBool h.assortative
+        | .error e => "err|" ++ showErr e)
+    | _, _, _, _ => (s, "bad-op")
+  | ["initw", k, ass, prior, g] => match nat? k, optBool? ass, prior? prior, ratss? g with
+    | some k, some (some ass), some prior, some g =>
+      (s, if initWOk k ass prior then showRatss (initW k ass prior g) else "badprior")
+    | _, _, _, _ => (s, "bad-op")
+  | ["initu", n, k, prior, g] => match nat? n, nat? k, prior? prior, ratss? g with
+    | some n, some k, some prior, some g =>
+      (s, if initUOk n k prior then showRatss (initU n k prior g) else "badprior")
+    | _, _, _, _ => (s, "bad-op")
+  | ["fitseed", nn, k, u, w, ass, dsup, up, wp, gw, gu, sq, n, tol, every] =>
+    match nat? nn, optNat? k, optMat? u, optMat? w, optBool? ass, optNat? dsup, prior? up, prior? wp with
+    | some nn, some k, some u, some w, some ass, some dsup, some up, some wp =>
+      match ratss? gw, ratss? gu, rat? sq, nat? n, stop? tol every with
+      | some gw, some gu, some sq, some n, some stop =>
+        (s, showOutcome (fitSeed { ctor := { K := k, u := u, w := w, assortative := ass }, Dsup := dsup, uPrior := up,
+                                   wPrior := wp, gw := gw, gu := gu, sqrtC := sq, stop := stop, n := n } nn s.edges s.A))
+      | _, _, _, _, _ => (s, "bad-op")
+    | _, _, _, _, _, _, _, _ => (s, "bad-op")
+  | ["llparts"] =>
+    let r := logLikParts s.data (matOf s.u) (matOf s.w)
+    (s, showRat r.1 ++ "|" ++ showRats r.2)
   | ["onew", u, w, dsup] => match optMat? u, optMat? w, int? dsup with
     | some u, some w, some dsup => ({ s with obj := newObj u w (if dsup < 0 then none else some dsup.toNat) }, "ok")
     | _, _, _ => (s, "bad-op")
